@@ -484,6 +484,36 @@ pub fn subjects() -> Vec<Subject> {
         item_caps!(c, T);
         add::<T>(&mut out, "tuple3", c);
     }
+    // contents that are non-empty yet occupy ZERO heap bytes (zero-sized elements next to plain-copy fields): a
+    // short cut keyed on "reports no bytes" is wrong exactly here
+    {
+        type T = TupleABRegion<MirrorRegion<u8>, OwnedRegion<()>>;
+        let mut c = Caps::<T>::default();
+        c.forms = vec![
+            form::<T>("ref", |r, v| mpush(r, v)),
+            form::<T>("owned", |r, v| mpush(r, v.clone())),
+            form::<T>("mixed", |r, v| mpush(r, (v.0, v.1.as_slice()))),
+        ];
+        c.reserve_forms = vec![rform::<T>("ref", |r, vs| r.reserve_items(vs.iter()))];
+        clone_caps!(c, T);
+        serde_caps!(c, T);
+        item_caps!(c, T);
+        add::<T>(&mut out, "tuple_u8_unit", c);
+    }
+    {
+        type T = ResultRegion<StringRegion, OwnedRegion<()>>;
+        let mut c = Caps::<T>::default();
+        c.forms = vec![
+            form::<T>("ref", |r, v| mpush(r, v)),
+            form::<T>("owned", |r, v| mpush(r, v.clone())),
+            form::<T>("slices", |r, v| mpush(r, v.as_ref().map(|s| s.as_str()).map_err(|e| e.as_slice()))),
+        ];
+        c.reserve_forms = vec![rform::<T>("ref", |r, vs| r.reserve_items(vs.iter()))];
+        clone_caps!(c, T);
+        serde_caps!(c, T);
+        item_caps!(c, T);
+        add::<T>(&mut out, "res_str_unit", c);
+    }
     {
         type T = OptionRegion<ResultRegion<StringRegion, MirrorRegion<u8>>>;
         let mut c = Caps::<T>::default();
